@@ -9,7 +9,7 @@ type Scenario struct {
 	Prop   string
 	Name   string
 	Run    func(k *K)
-	Weight int // share of the property's runs given to this scenario
+	Weight int    // share of the property's runs given to this scenario
 	Rule   string // how cases are generated and what makes one non-trivial (evidence text)
 	// NoBubble scenarios run on the real clock and the real file system (real leveldb under
 	// cache and keystore); they are sequential and need no kernel scheduling.
